@@ -1992,6 +1992,7 @@ struct Reg
              .c_str(),
            { { "plain", 3000, 60000, false },
              { "monitor", 1000, 20000, false },
+             { "avg", 1000, 20000, false }, // the filter is a frame producer too
              { "fault", 756, 15120, true } },
            { "n.appends", "n.monitor_nonempty_maps",
              "reach.monitor_partial_consume" });
